@@ -285,17 +285,23 @@ def run_shard(shard, ctx):
                 if vi == 0 and Rx == 1 and oracle == "closed_form":
                     ctx.sample(dict(shard=shard["id"], params={k: v for k, v in par.items()}, p_x=dict(mu=mx, Sigma=Sx), E_y=Ey, Cov_y=Cy, Cov_yx=Cyx))
             # ---- histories: the SAME conditional object and the SAME p_x object, used again after an in-place change ----
-            phases = [("px_updated", None)]
+            phases = [("px_replaced", None), ("px_updated", None)]
             if kind in ("LRBF", "LSEM"):
                 phases.append(("phi_updated", None))
             for phase, _ in phases:
                 f3 = dict(facts, phase=phase)
                 with ctx.guard("history." + phase, f3) as g:
-                    if phase == "px_updated":
+                    if phase == "px_replaced":
+                        # p(x) obtained from another density through the dataclass replace(mu=...)
+                        mx2 = mx * -0.5 + 0.7
+                        Sx2 = Sx
+                        p_x = p_x.replace(mu=J(mx2))
+                        par2 = par
+                    elif phase == "px_updated":
                         Sd = objs.spd_batch(Dx, 1, vi + 3, seed, tag + ("upd",))
                         md = objs.vec_batch(Dx, 1, vi + 3, seed, tag + ("upd",)) * 0.5
+                        mx2, Sx2 = np.asarray(p_x.mu).copy(), np.asarray(p_x.Sigma).copy()
                         p_x.update(jnp.array([Rx - 1]), objs.mk_pdf("GaussianPDF", Sd, md))
-                        mx2, Sx2 = mx.copy(), Sx.copy()
                         mx2[Rx - 1], Sx2[Rx - 1] = md[0], Sd[0]
                         par2 = par
                     else:
